@@ -259,6 +259,22 @@ def tlc_generated_store_cases(tier):
     return cases, len(rows)
 
 
+def tlc_generated_wm_cases(tier):
+    """word pairs with every stem, enumerated by TLC (GEN_WordMatch.tla), wrapped as `wm` operations"""
+    rows = tlc_generate("GEN_WordMatch", "GEN_WordMatch_q.cfg" if tier == "quick" else "GEN_WordMatch_t.cfg", "gen_wm_" + tier)
+    cases = []
+    for i in range(0, len(rows), 500):
+        c = gen.Case("GEN", "wm")
+        for r in rows[i:i + 500]:
+            r = dict(r)
+            r["op"] = "wm"
+            r["ri"] = 0
+            r["qi"] = 0
+            c.ops.append(r)
+        cases.append(c)
+    return cases, len(rows)
+
+
 def tlc_generated_registry_cases(tier):
     """every valid call sequence of the bounded registry alphabet (GEN_Registry.tla), driven through lib.rs with a
     stand-alone Store per id in lock-step"""
@@ -600,6 +616,12 @@ def run_property(prop, tier, seed):
         m2 = run_cases(prop + "x", more, ck, sh, stage_budget=600)
         merge_into(merged, m2)
         merged["escalated"] = True
+    if prop in ("C03", "C04"):
+        # specification -> implementation at word level: every word pair of the bounded model with every stem
+        gc, n = tlc_generated_wm_cases(tier)
+        m2 = run_cases(prop + "g", gc, ck, None, spec="TV_Comp")
+        m2["tlc_generated_cases"] = n
+        merge_into(merged, m2)
     if prop == "C20":
         gc, n = tlc_generated_registry_cases(tier)
         m2 = run_cases(prop + "g", gc, ck, None, spec="TV_Store")
